@@ -32,6 +32,7 @@ class Sched(object):
         self.horizon = horizon
         self.horizon_hit = False
         self.main_sem = threading.Semaphore(0)
+        self.on_timeout = None     # callback(seconds) moving the harness's virtual clock
         self.log = []
 
     # ---- thread management
@@ -138,6 +139,15 @@ class Sched(object):
             if self.aborting:
                 raise SchedAbort()
 
+    def timed_out(self, me, timeout, what):
+        """a wait with a timeout on something that has not happened yet: whether the timeout elapses first is the
+        environment's choice (a deviation); the virtual clock moves on by the timeout when it does"""
+        if self.ch.choose(2, 1, (me['tid'], 'timeout-' + what)) == 1:
+            if self.on_timeout is not None:
+                self.on_timeout(timeout)
+            return True
+        return False
+
     def block_until(self, me, cond):
         me['blocked'] = cond
         while not cond():
@@ -162,11 +172,19 @@ class SLock(object):
         self.s = s
         self.owner = None
 
-    def acquire(self):
+    def acquire(self, blocking=True, timeout=-1):
         me = self.s.cur
+        if self.owner is not None:
+            if not blocking:
+                return False
+            if timeout is not None and timeout >= 0 and self.s.timed_out(me, timeout, 'lock'):
+                return False
         self.s.block_until(me, lambda: self.owner is None)
         self.owner = me['tid']
         return True
+
+    def locked(self):
+        return self.owner is not None
 
     def release(self):
         self.owner = None
@@ -195,6 +213,8 @@ class SThread(object):
         if self.info is None:
             raise RuntimeError('cannot join thread before it is started')
         me = self.s.cur
+        if timeout is not None and not self.info['done'] and self.s.timed_out(me, timeout, 'join'):
+            return          # the timeout elapsed first: the thread is still running
         self.s.block_until(me, lambda: self.info['done'])
 
     def is_alive(self):
